@@ -13,7 +13,10 @@ use std::os::unix::fs::FileExt;
 use std::path::{Path, PathBuf};
 use std::time::Instant;
 
-pub const VERIF: &str = "/verif";
+/// root of the verification tree (the directory of the `check` script that started us)
+pub fn verif_root() -> String {
+    std::env::var("FMLV_VERIF").unwrap_or_else(|_| "/verif".to_string())
+}
 
 #[derive(Clone, Copy, PartialEq, Eq, Debug)]
 pub enum Tier {
@@ -217,7 +220,7 @@ pub struct Known {
 }
 
 pub fn load_known() -> Vec<Known> {
-    let path = format!("{}/known_findings.json", VERIF);
+    let path = format!("{}/known_findings.json", verif_root());
     let txt = match std::fs::read_to_string(&path) {
         Ok(t) => t,
         Err(_) => return vec![],
@@ -492,7 +495,7 @@ pub struct RunArgs {
 }
 
 fn work_dir(id: &str) -> PathBuf {
-    let base = std::env::var("FMLV_WORK").unwrap_or_else(|_| format!("{}/.work", VERIF));
+    let base = std::env::var("FMLV_WORK").unwrap_or_else(|_| format!("{}/.work", verif_root()));
     PathBuf::from(base).join(id)
 }
 
@@ -513,7 +516,7 @@ pub fn run_supervisor(p: &dyn Property, a: &RunArgs) -> i32 {
     let (rel, dev) = engine_paths();
     let n = p.workers(a.tier);
     // replay files of earlier runs of this property are stale by definition
-    let rdir0 = std::env::var("FMLV_REPLAY_DIR").unwrap_or_else(|_| format!("{}/replays", VERIF));
+    let rdir0 = std::env::var("FMLV_REPLAY_DIR").unwrap_or_else(|_| format!("{}/replays", verif_root()));
     if let Ok(rd) = std::fs::read_dir(&rdir0) {
         for e in rd.flatten() {
             if e.file_name().to_string_lossy().starts_with(&format!("{}-", id)) {
@@ -527,7 +530,7 @@ pub fn run_supervisor(p: &dyn Property, a: &RunArgs) -> i32 {
 
     // 1. replay the saved corpus (regression tier, no generators)
     let mut replayed = 0u64;
-    let corpus = PathBuf::from(format!("{}/corpus/{}", VERIF, id));
+    let corpus = PathBuf::from(format!("{}/corpus/{}", verif_root(), id));
     let mut rctx = Ctx::new(id, a.tier, a.seed, 0, 1);
     crate::fmlrun::install_panic_hook();
     if let Ok(rd) = std::fs::read_dir(&corpus) {
@@ -761,7 +764,7 @@ pub fn run_supervisor(p: &dyn Property, a: &RunArgs) -> i32 {
         "wall_s": wall,
         "violations": real.len(),
     });
-    let evdir = std::env::var("FMLV_EVIDENCE_DIR").unwrap_or_else(|_| format!("{}/evidence", VERIF));
+    let evdir = std::env::var("FMLV_EVIDENCE_DIR").unwrap_or_else(|_| format!("{}/evidence", verif_root()));
     let _ = std::fs::create_dir_all(&evdir);
     let evpath = format!("{}/{}.json", evdir, id);
     std::fs::write(&evpath, serde_json::to_string_pretty(&evidence).unwrap()).unwrap();
@@ -778,7 +781,7 @@ pub fn run_supervisor(p: &dyn Property, a: &RunArgs) -> i32 {
         wall
     );
     if !real.is_empty() {
-        let rdir = std::env::var("FMLV_REPLAY_DIR").unwrap_or_else(|_| format!("{}/replays", VERIF));
+        let rdir = std::env::var("FMLV_REPLAY_DIR").unwrap_or_else(|_| format!("{}/replays", verif_root()));
         let _ = std::fs::create_dir_all(&rdir);
         for v in &real {
             let body = json!({"property": id, "seed": a.seed, "tier": a.tier.name(), "kind": v.kind, "detail": v.detail, "case": v.case, "sig": v.sig});
